@@ -446,7 +446,7 @@ func cmdCheck(args []string) {
 		if fv.v.Extra["timer-dependent"] == "true" {
 			randDependent = true // the relative timing of a timer cannot be forced in the native run either
 		}
-		if (fv.run.spec.NoReplay || randDependent) && fv.v.Kind != "maprace" {
+		if (fv.run.spec.NoReplay || randDependent) && fv.v.Kind != "maprace" && fv.v.Kind != "slicerace" {
 			// schedule-dependent finding: the engine trace is the replay artefact
 			violationLines = append(violationLines, fmt.Sprintf("VIOLATION property=%s replay=%s", prop, f))
 			fmt.Printf("  (engine-trace) harness=%s label=%s kind=%s site=%s: %s\n", fv.run.spec.Func, fv.v.Label, fv.v.Kind, fv.v.Site, fv.v.Detail)
@@ -454,7 +454,7 @@ func cmdCheck(args []string) {
 			continue
 		}
 		rspec := fv.run.spec
-		if fv.v.Kind == "maprace" {
+		if fv.v.Kind == "maprace" || fv.v.Kind == "slicerace" {
 			rspec.Race = true // a map race is independent of the schedule: the native run under -race must report it
 		}
 		o := rp.run(rspec, f, fv.v.Kind == "deadlock")
@@ -465,6 +465,8 @@ func cmdCheck(args []string) {
 			ok = o.assertFail == fv.v.Label || (fv.run.spec.Race && o.race)
 		case "maprace":
 			ok = o.race || strings.Contains(o.output, "concurrent map")
+		case "slicerace":
+			ok = o.race
 		case "panic", "fatal":
 			ok = o.panicked
 		case "deadlock":
